@@ -307,6 +307,61 @@ func atomicAllocation(c *Ctx, sa *sharedAnalysis, v ssa.Value, depth int) (bool,
 			return false, "the lock is released between the increment and the read of " + fname
 		}
 		return true, fname + " incremented and read in one critical section under " + sa.ls.names(hinc&held&elig)
+	case *ssa.BinOp:
+		// allocated := counter + k, stored back and returned: the new value itself
+		if x.Op != token.ADD {
+			break
+		}
+		var ld *ssa.UnOp
+		if k, ok := constInt(x.Y); ok && k > 0 {
+			ld, _ = stripConv(x.X).(*ssa.UnOp)
+		} else if k, ok := constInt(x.X); ok && k > 0 {
+			ld, _ = stripConv(x.Y).(*ssa.UnOp)
+		}
+		if ld == nil || ld.Op != token.MUL {
+			break
+		}
+		fa, ok := ld.X.(*ssa.FieldAddr)
+		if !ok {
+			break
+		}
+		owner := namedOf(fa.X.Type())
+		if owner == nil {
+			return false, "counter owner unknown"
+		}
+		fname := owner.Obj().Name() + "." + fieldName(fa)
+		f := x.Parent()
+		var back *ssa.Store
+		eachInstr(f, func(_ *ssa.BasicBlock, _ int, ins ssa.Instruction) {
+			st, ok := ins.(*ssa.Store)
+			if !ok || stripConv(st.Val) != ssa.Value(x) {
+				return
+			}
+			if fa2, ok := st.Addr.(*ssa.FieldAddr); ok && fa2.Field == fa.Field && namedOf(fa2.X.Type()) == owner && instrDominates(ld, st) {
+				back = st
+			}
+		})
+		if back == nil {
+			return false, "the number " + fname + " + k is not stored back into the counter: the next request computes the same number"
+		}
+		held, _ := sa.ls.heldAt(ld)
+		hst, _ := sa.ls.heldAt(back)
+		elig := sa.eligible(owner.Obj().Name())
+		if held&hst&elig == 0 {
+			return false, "read and write-back of " + fname + " are not under a common protecting lock (held " + sa.ls.names(held) + " / " + sa.ls.names(hst) + ")"
+		}
+		released := false
+		eachInstr(f, func(_ *ssa.BasicBlock, _ int, ins ssa.Instruction) {
+			if op, ok := sa.ls.ops[ins]; ok && !op.deferred && (op.kind == lkUnlock || op.kind == lkRUnlock) {
+				if (held&hst&elig)&(1<<uint(sa.ls.idx[op.class])) != 0 && canReach(ld, ins) && canReach(ins, back) {
+					released = true
+				}
+			}
+		})
+		if released {
+			return false, "the lock is released between the read and the write-back of " + fname
+		}
+		return true, fname + " + k computed, stored back and returned in one critical section under " + sa.ls.names(held&hst&elig)
 	}
 	return false, "the number " + describe(v) + " is not an allocation"
 }
